@@ -5,11 +5,15 @@
    (an output that is not a box of the differentiating trace yields the exact
    zero of the model's scalar space, never an error) is the definition of the
    model's Grad/Deriv cases, tied by the correspondence run; examples below.
-   NOT PROVED: that a body which does not mention its variable never yields a
-   box of the new trace (needs the freshness invariant of C08). *)
+   PROVED (C14_zero_for_independent_and_piecewise_constant): every differential
+   operator of the model returns what the tower semantics returns - where an output
+   that does not depend on the differentiated variable, or depends on it only
+   through sign, has tangent exactly 0 at that level (tsign puts tzero there; a
+   value of older levels is lifted with tangent tzero) - for every program, every
+   nesting and both modes (instance of MixEval.nested_correct). *)
 From Coq Require Import List ZArith.
 Import ListNotations.
-From AG Require Import Toposort Tagged Tower Run08 TaggedProof.
+From AG Require Import Toposort Tagged Tower Run08 TaggedProof TowerAlg FwdCorrect TowerRing MixInterp MixStep MixBackward MixEval.
 
 Theorem C14_nondifferentiable_returns_plain :
   forall (K : Type) kadd ksub kmul kopp kF ksign fuel p args s v s',
@@ -18,6 +22,25 @@ Theorem C14_nondifferentiable_returns_plain :
     (exists k, v = VNum K k) /\ s' = s.
 Proof. exact notrace_plain. Qed.
 Print Assumptions C14_nondifferentiable_returns_plain.
+
+Theorem C14_zero_for_independent_and_piecewise_constant :
+  forall fuel e (s : state Z),
+    prims_ok e = true -> (-1 <= top Z s)%Z -> calm Z s -> store Z s = [] ->
+    match fst (zeval_sup Mono fuel [] e s) with
+    | Val v => eval_spec e 0 [] = Some (strip Z v)
+    | Err _ => eval_spec e 0 [] = None
+    | OutOfFuel => True
+    end.
+Proof. exact nested_correct. Qed.
+Print Assumptions C14_zero_for_independent_and_piecewise_constant.
+
+(* in the tower semantics an output independent of the variable, and sign of anything, have tangent 0 *)
+Example C14_spec_zero :
+  eval_spec (Deriv (Const 5) (Const 2)) 0 [] = Some 0%Z
+  /\ eval_spec (Grad (App1 PSign (App2 PMul (Var 0) (Var 0))) (Const 3)) 0 [] = Some 0%Z
+  /\ eval_spec (Grad (App2 PMul (Var 0) (App1 PSign (Var 0))) (Const (-3))) 0 [] = Some (-1)%Z
+  /\ eval_spec (Grad (Grad (App2 PMul (Var 1) (Var 1)) (Const 7)) (Const 3)) 0 [] = Some 0%Z.
+Proof. vm_compute. repeat split; reflexivity. Qed.
 
 (* x * sign(x) differentiates to sign(x); an output independent of the
    variable gives exactly 0 in both modes, also under an enclosing trace *)
